@@ -56,7 +56,7 @@ func (e *Engine) verifyFunction(fn *ssa.Function, fc *FuncContract) (c *Ctx) {
 		// the captured variable's current value
 		et := fv.Type().(*types.Pointer).Elem()
 		s := e.sortOf(et)
-		entryEv.vars[fv.Name()] = SVal{T: "(select " + c.heapTerm(st, e.boxKey(s)) + " " + binds[k].T + ")", S: s, GT: et}
+		entryEv.vars[fv.Name()] = SVal{T: "(select " + c.heapTerm(st, e.boxKey(et)) + " " + binds[k].T + ")", S: s, GT: et}
 	}
 	var objs map[string][]string
 	var kfc *FuncContract
@@ -127,6 +127,7 @@ func (e *Engine) verifyFunction(fn *ssa.Function, fc *FuncContract) (c *Ctx) {
 				continue
 			}
 			c.fact(g)
+			c.noteHyp(rq.Expr, entryEv, "true")
 		}
 		for _, u := range fc.Uses {
 			entryEv.useAxiom(u)
@@ -170,7 +171,7 @@ func (e *Engine) verifyFunction(fn *ssa.Function, fc *FuncContract) (c *Ctx) {
 			post.useAxiom(u)
 		}
 		for _, en := range fc.Ensures {
-			g, err := post.evalBool(en.Expr)
+			g, err := c.skolemGoal(en.Expr, post, rt.reach)
 			if err != nil {
 				c.errorf("%s: ensures %s: %v", en.Where, en.Tag(), err)
 				f.unbound("ensures"+en.Tag()+suffix, en, err)
@@ -181,7 +182,7 @@ func (e *Engine) verifyFunction(fn *ssa.Function, fc *FuncContract) (c *Ctx) {
 		if kfc != nil {
 			short := fc.Implements[strings.Index(fc.Implements, ".")+1:]
 			for _, en := range kfc.Ensures {
-				g, err := post.evalBool(en.Expr)
+				g, err := c.skolemGoal(en.Expr, post, rt.reach)
 				if err != nil {
 					c.errorf("%s: ensures of %s: %v", en.Where, fc.Implements, err)
 					f.unbound("subtype["+short+"]"+en.Tag()+suffix, en, err)
